@@ -444,9 +444,17 @@ fn c04_file(ctx: &mut Ctx, k: usize, records: &[Vec<u8>], mode: &str, threads: u
     write_fasta(&inp, records);
     let argv = vec!["case".to_string(), "C04file".to_string(), k.to_string(), mode.to_string(), threads.to_string(), records.len().to_string()];
     ctx.journal.note(|| format!("C04 file k={} mode={} threads={}", k, mode, threads));
+    // modes ending in "-Hw": header line requested and a two-byte delimiter (both are public settings of the object)
+    let (mode_full, wide) = (mode, mode.ends_with("-Hw"));
+    let mode = mode.trim_end_matches("-Hw");
+    let delim = if wide { "::" } else { " " };
     let r = guard(|| {
         let mut oc = OligoComputer::new(inp.clone(), outp.clone(), k);
         oc.set_threads(threads);
+        if wide {
+            oc.set_header(true);
+            oc.set_delim(delim.to_string());
+        }
         match mode {
             "mmap" => oc.verif_vectorise_mmap(),
             "batch-norm" => oc.verif_vectorise_batch(),
@@ -476,9 +484,20 @@ fn c04_file(ctx: &mut Ctx, k: usize, records: &[Vec<u8>], mode: &str, threads: u
         Ok(Ok(())) => {}
     }
     let text = std::fs::read_to_string(&outp).unwrap_or_default();
-    let rows = match parse_rows(&text, " ") {
+    let body: &str = if wide {
+        // the first line must be the header in the requested delimiter
+        let names: Vec<String> = model::canon_index(k).iter().map(|&c| String::from_utf8(model::text_of(c, k)).unwrap()).collect();
+        let want = names.join(delim) + "\n";
+        match text.strip_prefix(want.as_str()) {
+            Some(b) => b,
+            None => return viol(ctx, "header-line", k, format!("file API k={k} {mode_full}: the output does not start with the header line in the requested delimiter (first bytes {:?})", &text[..text.len().min(60)]), argv),
+        }
+    } else {
+        &text
+    };
+    let rows = match parse_rows(body, delim) {
         Ok(r) => r,
-        Err(e) => return viol(ctx, "unparsable-output", k, format!("file API k={k} {mode}: {e}"), argv),
+        Err(e) => return viol(ctx, "unparsable-output", k, format!("file API k={k} {mode_full}: {e}"), argv),
     };
     if rows.len() != records.len() {
         return viol(ctx, "row-count", k, format!("file API k={k} {mode}: {} rows for {} records", rows.len(), records.len()), argv);
@@ -607,7 +626,7 @@ pub fn c04(ctx: &mut Ctx) {
     let mut nf = 0u64;
     for k in 1..=4usize {
         for (oi, recs) in orders.iter().enumerate() {
-            for (mode, threads) in [("mmap", 3usize), ("mmap", 16), ("batch-norm", 4), ("batch-small", 4), ("counts", 2), ("counts", 1), ("batch-norm", 1), ("mmap-small", 1), ("mmap-small", 5), ("mmap-tiny", 2)] {
+            for (mode, threads) in [("mmap", 3usize), ("mmap", 16), ("batch-norm", 4), ("batch-small", 4), ("counts", 2), ("counts", 1), ("batch-norm", 1), ("mmap-small", 1), ("mmap-small", 5), ("mmap-tiny", 2), ("mmap-Hw", 2), ("batch-norm-Hw", 3), ("counts-Hw", 1), ("mmap-small-Hw", 4)] {
                 if sh.mine() {
                     c04_file_order(ctx, k, recs, mode, threads, oi);
                     nf += 1;
